@@ -346,7 +346,7 @@ Proof.
   intros p pre H. unfold literal_prefix in H. pose proof (find_wild_lit_chars p) as Hf.
   destruct (find_wild p) as [[|n]|]; try discriminate; injection H as H; subst pre.
   - destruct (Hlc p) as (rest & E & F). rewrite Hf in E, F. exists rest. split; assumption.
-  - destruct (Hlc p) as (rest & E & F). rewrite Hf in F. rewrite Hf in E at 2.
+  - destruct (Hlc p) as (rest & E & F). rewrite Hf in E, F.
     exists rest. split; assumption.
 Qed.
 
